@@ -14,6 +14,7 @@ struct WorldH : World {
   std::string stream;             // bytes fed to the helper's fd 0
   Sink *out = nullptr, *errs = nullptr;
   int helper_pid = 0; bool helper_done = false; int helper_status = -1;
+  std::string newu_old, newu_new, newu_after; bool newu_new_ok = false, newu_crashed = false;
   // clean
   std::vector<std::string> unlinks;   // canonical paths qmail-clean tried to unlink under queue/ (pid/ sweeps recorded separately)
   std::vector<std::string> pid_unlinks; std::vector<int> unlink_err;   // errno of each unlink attempt outside pid/ (0 = removed)
@@ -54,7 +55,7 @@ struct WorldH : World {
       const Json &pj = plan->knobs["pw2u"];
       for (const char *fn : {"include", "exclude", "mailnames", "subusers", "append"}) if (pj.has(fn)) k->put_file(t.home + "/users/" + fn, pj.gets(fn), 0644);
     }
-    if (plan->knobs.has("assign")) { assign_src = plan->knobs.gets("assign"); k->put_file(t.home + "/users/assign", assign_src, 0644); }
+    if (plan->knobs.has("assign") && mode != "newu") { assign_src = plan->knobs.gets("assign"); k->put_file(t.home + "/users/assign", assign_src, 0644); }
     if (plan->knobs.has("getpw_stub")) { k->put_exec(t.home + "/bin/qmail-getpw", "stub:getpw", 0711); k->natives["getpw"] = [this](int, char **) { const Json &g = plan->knobs["getpw_stub"]; std::string o = g.gets("out"); if (!o.empty()) k->sys_write(1, o.data(), o.size()); if (g.getb("crash", false)) k->kill_proc(k->cp(), 11); return (int)g.geti("code", 0); }; }
     for (auto &f : plan->faults) if (f.kind == "error" || f.kind == "kill" || f.kind == "null") lookup_fault = true;
     // decoys: every file a wrongly parsed request or message id could hit
@@ -109,6 +110,19 @@ struct WorldH : World {
       Inode *cdb = k->lookup(t.home + "/users/cdb");
       if (cdb) for (auto &fl : plan->knobs["cdb_flip"].a) { size_t off = (size_t)fl.i() % (cdb->data.size() ? cdb->data.size() : 1); if (!cdb->data.empty()) { cdb->data[off] = (char)(cdb->data[off] ^ (1 << (fl.i() % 8))); cdb->synced = cdb->data; cdb_damaged = true; k->note_fault("cdb_corrupt"); } }
       if (cdb && tr >= 0 && (size_t)tr < cdb->data.size()) { cdb->data.resize((size_t)tr); cdb->synced = cdb->data; cdb_damaged = true; k->note_fault("cdb_corrupt"); }
+    }
+    if (mode == "newu") {
+      // the table is rebuilt while mail is being delivered: users/cdb must at every instant be a complete table - the old one or the
+      // new one - whatever stops qmail-newu (an I/O error, a signal, the machine)
+      auto run_newu = [&]() { int np = k->spawn(k->cp(), t.home + "/bin/qmail-newu", {"qmail-newu"}, {}, {{0, k->of_null()}, {1, k->of_sink(errs)}, {2, k->of_sink(errs)}}, 0, 0, "/"); helper_pid = np;
+        k->block([this, np] { Proc *p = k->find_proc(np); return !p || p->st != Proc::LIVE; }, k->clock + 1000, false); Proc *p = k->find_proc(np); return p ? p->status : -1; };
+      auto cdb_now = [&]() -> std::string { Inode *c = k->lookup(t.home + "/users/cdb"); return c ? "present:" + c->data : std::string("absent"); };
+      k->put_file(t.home + "/users/assign", plan->knobs.gets("assign_old"), 0644); run_newu(); newu_old = cdb_now();
+      k->put_file(t.home + "/users/assign", plan->knobs.gets("assign"), 0644); int st2 = run_newu(); newu_new = st2 == 0 ? cdb_now() : newu_old; newu_new_ok = st2 == 0;
+      // back to the old table, then the run that is disturbed (the third qmail-newu of this plan)
+      { Inode *ud = k->lookup(t.home + "/users"); if (ud) { ud->ents.erase("cdb"); ud->ents.erase("cdb.tmp"); } if (newu_old != "absent") k->put_file(t.home + "/users/cdb", newu_old.substr(8), 0644); }
+      k->crashed_flag = false; int st3 = run_newu(); newu_crashed = k->crashed_flag; k->crashed_flag = false; newu_status = st3; newu_after = cdb_now();
+      helper_done = true; k->stop = true; return;
     }
     if (mode == "pw2u") {
       std::vector<std::string> av = {"qmail-pw2u"}; for (auto &a : plan->knobs["pw2u"]["args"].a) av.push_back(a.str());
@@ -328,6 +342,17 @@ struct WorldH : World {
     for (auto &ag : agents) if (!ag.used) { violate("C11.identity", "qmail-local was started for \"" + printable(ag.argv.size() >= 5 ? ag.argv[4] : std::string("?")) + "\" which no command asked for"); break; }
   }
 
+  void finish_newu() {
+    res->nontrivial = true; k->probe("newu_replacements");
+    bool fired = false; for (auto &f : k->faults) if (f.fired) fired = true;
+    bool ok3 = !newu_crashed && newu_status == 0;
+    auto show = [&](const std::string &x) { return x == "absent" ? std::string("absent") : x == newu_old ? std::string("the old table") : x == newu_new ? std::string("the new table") : "neither table (" + std::to_string(x.size() - 8) + " bytes)"; };
+    if (newu_after != newu_old && newu_after != newu_new) { violate("C11.cdb-replaced-incompletely", std::string("after qmail-newu ") + (newu_crashed ? "was stopped by a machine crash" : "exited " + std::to_string((newu_status >> 8) & 0xff)) + " users/cdb is " + show(newu_after)); return; }
+    if (ok3 && newu_new_ok && newu_after != newu_new) { violate("C11.cdb-not-replaced", "qmail-newu exited 0 but users/cdb is " + show(newu_after)); return; }
+    if (!ok3 && !newu_crashed && newu_after != newu_old && fired) { /* it failed after the rename? the rename is its last step: a failure report with the new table in place is still a complete table */ k->probe("newu_failed_after_rename"); }
+    if (fired) k->probe(newu_after == newu_new ? "newu_disturbed_new_table_in_place" : "newu_disturbed_old_table_kept");
+  }
+
   // C11, passwd leg: qmail-pw2u(8) turns a passwd file into the assignment table "by the same rules as qmail-getpw": an account gets
   // addresses only if its uid is not zero, its home exists and is owned by it, its name has no upper-case letter (as modified by the
   // options and by users/include, exclude, mailnames, subusers, append). Reference written from the manual page; the output is
@@ -382,6 +407,7 @@ struct WorldH : World {
 
   // C09 (spawner leg): the verdict forwarded to the queue manager never upgrades a refusal, a crash or an unparseable result
   void finish_c09r() {
+    int spawner_fault_budget = 0; for (auto &f : k->faults) if (f.fired && f.actor.compare(0, 12, "qmail-rspawn") == 0 && (f.call == C_FSTAT || f.call == C_PIPE || f.call == C_FORK)) spawner_fault_budget++;
     struct Cmd { int delnum; std::string recip; };
     std::vector<Cmd> cmds; size_t i = 0;
     while (i < stream.size()) { size_t a = stream.find('\0', i + 1); if (a == std::string::npos) break; size_t b = stream.find('\0', a + 1); if (b == std::string::npos) break; size_t c = stream.find('\0', b + 1); if (c == std::string::npos) break; cmds.push_back(Cmd{(unsigned char)stream[i], stream.substr(b + 1, c - b - 1)}); i = c + 1; }
@@ -397,6 +423,8 @@ struct WorldH : World {
       if (rep.empty()) { violate("C09.rspawn-no-report", "no report for delivery " + std::to_string(c.delnum)); return; }
       char got = rep[0];
       if (c.delnum >= (int)conf.geti("spawn", 120)) { if (got != 'Z') { violate("C09.rspawn-over-limit-not-deferred", "report \"" + printable(rep, 60) + "\" for a delivery number beyond conf-spawn"); return; } k->probe("delnum_beyond_conf_spawn"); continue; }
+      // an injected failure in the spawner itself (fstat, pipe, fork): that one delivery never got an agent; the spawner says so with a temporary failure of its own
+      if (spawner_fault_budget > 0 && rep.compare(0, 22, "Zqmail-spawn unable to") == 0) { spawner_fault_budget--; k->probe("spawner_own_temporary_failure"); continue; }
       // is success justified by qmail-remote(8)'s output grammar?
       bool k_ok = !crash && code == 0 && !o.empty() && o[0] != 's' && o[0] != 'h';
       if (k_ok) { char first = 0; size_t j = 0; for (size_t q = 0; q < o.size(); q++) if (!o[q]) { char s0 = o[j]; if (s0 == 'K' || s0 == 'Z' || s0 == 'D') { first = s0; break; } j = q + 1; } k_ok = first == 'K'; }
@@ -412,7 +440,7 @@ struct WorldH : World {
   void finish() override {
     if (plan->knobs.getb("nojudge", false)) { res->nontrivial = true; if (!helper_done) violate("C20.helper-hung", mode + " still running"); Hash64 h9; h9.str(out->data); res->state_hash = h9.get(); return; }
     if (c09r) { finish_c09r(); Hash64 h0; h0.str(out->data); res->state_hash = h0.get(); return; }
-    if (mode == "pw2u") finish_pw2u(); else if (c11) finish_c11(); else if (mode == "clean") finish_clean(); else finish_spawner();
+    if (mode == "newu") finish_newu(); else if (mode == "pw2u") finish_pw2u(); else if (c11) finish_c11(); else if (mode == "clean") finish_clean(); else finish_spawner();
     Hash64 h; h.str(out->data); res->state_hash = h.get();
   }
 };
